@@ -244,7 +244,7 @@ fn main() {
                 std::process::exit(2);
             };
             let st = std::process::Command::new(bin)
-                .args(["deep", &v["case"]["input_kind"].as_u64().unwrap_or(0).to_string(), &v["case"]["len"].as_u64().unwrap_or(100_000).to_string(), if id == "C04" { "lib" } else { "front" }])
+                .args(["deep", &v["case"]["input_kind"].as_u64().unwrap_or(0).to_string(), &v["case"]["len"].as_u64().unwrap_or(100_000).to_string(), if id == "C19" { "front" } else { "lib" }])
                 .status();
             match st {
                 Ok(s) if s.success() => {
